@@ -32,7 +32,7 @@ ASSUMES = ["layout is placed only BETWEEN complete commands, never inside one (n
            "break - `ResetGM ( c` takes the '(' as its argument list (ruled outside the property; non-strict corpus witness)",
            "loop counts are written explicitly (`[2`): an omitted count followed by blanks and '(', '=' or a digit reads it as the count",
            "a '#' comment is preceded by a separator character (directly after a note letter '#' is a sharp)",
-           "two commands are written without any separator only where their texts cannot be read as one token: not `t0` `o4` (0o4 is an octal literal)",
+           "two commands are written without any separator only where their texts cannot be read as one token: not `t0` `o4` (0o4 is an octal literal), not `{` followed by a double quote (that pair opens a string literal for sutoton::convert)",
            "no command starts with '^': after a length a line break followed by '^' continues the length (documented)",
            "comment text is harmless: ASCII without '{' '}' '\"' '~' (braces are counted by the block readers, '{\"' and '~' belong to "
            "sutoton::convert), block comments contain neither '*' nor '/' (\"/*/\" already closes a comment), no line break in line comments",
@@ -185,6 +185,8 @@ def make_layout(rng, items, rich):
             s = s + rng.choice([" ", "\n", ";"])
         if s == "" and p.endswith("0") and t.startswith("o"):
             s = rng.choice([" ", "\n", ";"])      # `t0` `o4` written without a separator is the octal literal 0o4
+        if s == "" and p.endswith("{") and t.startswith('"'):
+            s = rng.choice([" ", "\n"])           # `{"` opens a string literal for sutoton::convert
         lays.append(s)
     return lays
 
